@@ -304,11 +304,17 @@ var c08Sources = []string{"query", "bind-get", "form", "multipart", "header", "p
 
 func c08GenStruct(r *rand.Rand) *c08Case {
 	_, infos := c08Catalogue()
-	c := &c08Case{Kind: "struct", Source: c08Sources[r.Intn(len(c08Sources))]}
+	c := &c08Case{Kind: "struct", Source: c08Sources[r.Intn(len(c08Sources))], Prepop: r.Intn(2) == 0}
+	if r.Intn(5) == 0 {
+		c.Source = "param+query"
+	}
 	n := 1 + r.Intn(6)
 	pBad := []int{3, 15, 40}[r.Intn(3)]
-	for i := 0; i < n; i++ {
-		info := infos[r.Intn(len(infos))]
+	pEmpty := 15
+	if c.Prepop {
+		pEmpty = 5
+	}
+	field := func(info c08FieldInfo) c08Field {
 		nv := 1
 		if info.Wrap >= 2 {
 			nv = 1 + r.Intn(3)
@@ -318,12 +324,24 @@ func c08GenStruct(r *rand.Rand) *c08Case {
 		f := c08Field{Name: info.Name}
 		for j := 0; j < nv; j++ {
 			s := c08GenText(r, info.Fam, info.E, pBad)
-			if r.Intn(15) == 0 {
+			if r.Intn(pEmpty) == 0 {
 				s = ""
 			}
 			f.Values = append(f.Values, s)
 		}
-		c.Fields = append(c.Fields, f)
+		return f
+	}
+	for i := 0; i < n; i++ {
+		info := infos[r.Intn(len(infos))]
+		c.Fields = append(c.Fields, field(info))
+		if c.Source == "param+query" && r.Intn(2) == 0 {
+			c.Fields2 = append(c.Fields2, field(info)) // the same field through both sources
+		}
+	}
+	if c.Source == "param+query" {
+		for i := 0; i < r.Intn(3); i++ {
+			c.Fields2 = append(c.Fields2, field(infos[r.Intn(len(infos))]))
+		}
 	}
 	return c
 }
@@ -371,7 +389,26 @@ func c08Probe(r *rand.Rand) []any {
 			if info.Wrap >= 2 && r.Intn(2) == 0 {
 				f.Values = []string{c08ValidFor(r, info.Fam, info.E), s}
 			}
-			out = append(out, &c08Case{Kind: "struct", Source: src, Fields: []c08Field{f}})
+			out = append(out, &c08Case{Kind: "struct", Source: src, Fields: []c08Field{f}, Prepop: r.Intn(2) == 0})
+		}
+	}
+	// pre-populated destinations: every field x {empty, valid text} x every source, and path
+	// value followed by an empty / valid query value for the same field
+	for _, info := range infos {
+		valid := c08ValidFor(r, info.Fam, info.E)
+		for _, src := range c08Sources {
+			for _, txt := range []string{"", valid} {
+				for _, pre := range []bool{true, false} {
+					out = append(out, &c08Case{Kind: "struct", Source: src, Prepop: pre, Fields: []c08Field{{Name: info.Name, Values: []string{txt}}}})
+				}
+			}
+		}
+		for _, second := range []string{"", valid} {
+			for _, pre := range []bool{true, false} {
+				out = append(out, &c08Case{Kind: "struct", Source: "param+query", Prepop: pre,
+					Fields:  []c08Field{{Name: info.Name, Values: []string{c08ValidFor(r, info.Fam, info.E)}}},
+					Fields2: []c08Field{{Name: info.Name, Values: []string{second}}}})
+			}
 		}
 	}
 	return out
@@ -408,7 +445,7 @@ func c08Gen(r *rand.Rand, tier string) []any {
 				continue
 			}
 			for i := 0; i < nDec; i++ {
-				out = append(out, &c08Case{Kind: "struct", Source: c08Sources[r.Intn(len(c08Sources))],
+				out = append(out, &c08Case{Kind: "struct", Source: c08Sources[r.Intn(len(c08Sources))], Prepop: r.Intn(2) == 0,
 					Fields: []c08Field{{Name: info.Name, Values: []string{c08Adversarial(r, info.Fam, info.E)}}}})
 			}
 		}
@@ -483,9 +520,24 @@ func c08Shrink(ci any) []any {
 				}
 			}
 		}
-		if c.Source != "query" {
+		for i := range c.Fields2 {
+			d := *c
+			d.Fields2 = append(append([]c08Field(nil), c.Fields2[:i]...), c.Fields2[i+1:]...)
+			out = append(out, &d)
+		}
+		if c.Source != "query" && c.Source != "param+query" {
 			d := *c
 			d.Source = "query"
+			out = append(out, &d)
+		}
+		if c.Source == "param+query" && len(c.Fields2) == 0 {
+			d := *c
+			d.Source = "param"
+			out = append(out, &d)
+		}
+		if c.Prepop {
+			d := *c
+			d.Prepop = false
 			out = append(out, &d)
 		}
 		return out
@@ -571,8 +623,8 @@ func c08Mutate(r *rand.Rand, ci any) []any {
 
 func init() {
 	register(&Prop{
-		ID:             "C08",
-		Rule:           "probe table: every exported ValueBinder method with signature (string,*T)/(string,*[]T) (enumerated by reflect), every BindWithDelimiter destination and every field of a catalogue struct (17 scalar kinds, pointers, slices, slices of pointers, pointers to slices; sources query/Bind/form/multipart/header/param) x 48 decimal boundaries (±(2^w+{-1,0,1}), w=7,8,15,16,31,32,63,64) and ~170 look-alikes (signs, leading zeros, whitespace, 0x/_/e forms, Unicode digits, 40-digit numbers, float32/64 rounding witnesses, duration limits, empty); plus random chains of 2-7 binder ops (calls, FailFast, BindError, BindErrors) and random struct requests of 1-6 fields; non-trivial = a converted text within ±1 of a width boundary or a look-alike of a number, or a call made while the binder already holds an error; distinct = distinct model op lines",
+		ID: "C08",
+		Rule: "probe table: every exported ValueBinder method with signature (string,*T)/(string,*[]T) (enumerated by reflect), every BindWithDelimiter destination and every field of a catalogue struct (17 scalar kinds, pointers, slices, slices of pointers, pointers to slices; sources query/Bind/form/multipart/header/param) x 48 decimal boundaries (±(2^w+{-1,0,1}), w=7,8,15,16,31,32,63,64) and ~170 look-alikes (signs, leading zeros, whitespace, 0x/_/e forms, Unicode digits, 40-digit numbers, float32/64 rounding witnesses, duration limits, empty); plus random chains of 2-7 binder ops (calls, FailFast, BindError, BindErrors) and random struct requests of 1-6 fields; non-trivial = a converted text within ±1 of a width boundary or a look-alike of a number, or a call made while the binder already holds an error; distinct = distinct model op lines",
 		New:            func() any { return &c08Case{} },
 		Gen:            c08Gen,
 		Run:            c08Run,
